@@ -124,7 +124,7 @@ StepAct(R, f, a) ==
          [] a.op = "perr"   -> IF Bug = "aerr_swallowed"
                                  THEN [R EXCEPT !.log = Append(@, ent), !.stack = adv]
                                  ELSE Abort(R, [k |-> "a", s |-> f.s, r |-> f.pc, m |-> 0], ent)
-         [] a.op = "accept" -> [R EXCEPT !.stack = IF Bug = "accept_pops_one" THEN Pop(@) ELSE <<>>]
+         [] a.op = "accept" -> [R EXCEPT !.stack = <<>>]
          [] a.op = "reject" -> [R EXCEPT !.stack = <<>>, !.resp = a.arg]
          [] a.op = "return" -> [R EXCEPT !.stack = Pop(@)]
          [] a.op = "jump"   -> [R EXCEPT !.stack = Append(IF Bug = "jump_not_advanced" THEN @ ELSE adv,
